@@ -33,24 +33,27 @@ View == <<started, ordered, order, frames, label, t0, res>>
 -----------------------------------------------------------------------------
 (* The object pool.  a,b,c: compatible ascending frames; d: descending frame *)
 (* of the same band (same fmin, df, dt, fchans: compatible by the property); *)
-(* x*: frames differing in exactly one guarded attribute; obj: not a frame.  *)
+(* x*: frames differing in exactly one guarded attribute; y*: the same with   *)
+(* a near-miss difference (relative 2^-17); obj: not a frame.                *)
+(* Times are in ticks of 2^-17 s so that the near-miss dt is an integer.     *)
 Good      == {"a", "b", "c", "d"}
-Bad       == {"xdf", "xdt", "xfc", "xfm"}
+Bad       == {"xdf", "xdt", "xfc", "xfm", "ydf", "ydt", "yfm"}   \* y*: differ by a relative 2^-17 only
 AllFrames == Good \cup Bad
 NonFrames == {"obj"}
 Items     == AllFrames \cup NonFrames
 
 Key(v) == IF v \in Good THEN "k0" ELSE v
-Dt(v) == IF v = "xdt" THEN 2 ELSE 1
+TK == 131072
+Dt(v) == IF v = "xdt" THEN 2 * TK ELSE IF v = "ydt" THEN TK + 1 ELSE TK
 Tch(v) == CASE v = "a" -> 2 [] v = "b" -> 3 [] v = "c" -> 2 [] v = "d" -> 4 [] OTHER -> 2
-T0Init == [v \in AllFrames |-> CASE v = "a" -> 0 [] v = "b" -> 5 [] v = "c" -> 16 [] v = "d" -> 9 [] OTHER -> 1]
+T0Init == [v \in AllFrames |-> TK * (CASE v = "a" -> 0 [] v = "b" -> 5 [] v = "c" -> 16 [] v = "d" -> 9 [] OTHER -> 1)]
 
 Order0 == <<"A", "B", "A", "C", "A", "D">>
 Orders == {<<"A", "B", "A", "B", "A", "B">>, <<"D", "C", "B", "A", "B", "C">>}
 Labels == {"A", "B", "C", "D"}
 
 StartLists == {<<>>, <<"a">>, <<"a", "b">>, <<"b", "a", "c">>, <<"a", "b", "c", "d">>,
-               <<"d", "a", "d">>, <<"xdf">>, <<"a", "obj", "b">>, <<"a", "xfm">>, <<"obj">>,
+               <<"d", "a", "d">>, <<"xdf">>, <<"ydf">>, <<"b", "ydt">>, <<"a", "obj", "b">>, <<"a", "xfm">>, <<"obj">>,
                <<"c", "c">>}
 
 NoneV == 99      \* Python None as a slice bound
@@ -273,7 +276,7 @@ OverwriteTimes(s) ==
 SliceBounds == {NoneV} \cup IdxRange
 Masks == {m \in [1..Len(frames) -> BOOLEAN] : TRUE}
 IdxLists == {<<i>> : i \in IdxRange} \cup {<<i, j>> : i \in {0, -1}, j \in IdxRange}
-ExtLists == {<<>>, <<"b">>, <<"c", "a">>, <<"a", "obj">>, <<"xdf", "a">>, <<"d", "xfc", "b">>}
+ExtLists == {<<>>, <<"b">>, <<"c", "a">>, <<"a", "obj">>, <<"xdf", "a">>, <<"d", "xfc", "b">>, <<"b", "yfm">>, <<"ydt", "ydt">>}
 
 Pick(S) == IF Sample = 0 \/ Cardinality(S) <= Sample THEN S ELSE RandomSubset(Sample, S)
 SliceArgs == SliceBounds \X SliceBounds \X {1, 2, -1}
@@ -304,7 +307,7 @@ Next ==
         \/ \E m \in Pick(Masks) : GetMask(m)
         \/ \E L \in Labels : ByLabel(L)
         \/ \E o \in Orders : SetOrder(o)
-        \/ \E s \in {0, 3} : OverwriteTimes(s)
+        \/ \E s \in {0, 3 * TK} : OverwriteTimes(s)
 
 Spec == Init /\ [][Next]_vars
 
@@ -351,6 +354,6 @@ SelectionPure ==
 SlewExact ==
     [][(res'.op = "OverwriteTimes" /\ Cardinality({frames[i] : i \in 1..Len(frames)}) = Len(frames)) =>
          \A i \in 1..Len(frames) - 1 :
-             \E s \in {0, 3} : t0'[frames[i + 1]] - Tstop(t0', frames[i]) = s]_vars
+             \E s \in {0, 3 * TK} : t0'[frames[i + 1]] - Tstop(t0', frames[i]) = s]_vars
 
 =============================================================================
